@@ -131,3 +131,60 @@ def flow_comps(gw, link, nz):
     v = comps(gw, link.attrs["states"]["v"], nz)
     lam = nz.rf(link.attrs["lam"].t)
     return [r * s * lam for r, s in zip(rho, v)]
+
+
+def incremental_vs_direct(prog: Program):
+    """The same merge network built (i) in one go and (ii) incrementally - mainline first, validated
+    and stepped, then a second branch attached to the interior node - with CPython's caching of
+    `cached_property` and the real invalidating decorator. After the final step every element's
+    next state must be the same term. Returns a list of discrepancies (text)."""
+    from .histories import HistWorld
+
+    def build(incremental: bool):
+        hw = HistWorld(prog)
+        it = hw.interp()
+        n1, n2, n3, n4, n5 = (hw.node(k) for k in ("n1", "n2", "n3", "n4", "n5"))
+        l1, l2, l3, l4 = hw.link("l1", nseg=2), hw.link("l2", nseg=2), hw.link("l3", nseg=1), hw.link("l4", nseg=2)
+        o1, o3 = hw.origin("o1", "MainstreamOrigin"), hw.origin("o3", "MeteredOnRamp")
+        d1, d2 = hw.dest("d1", "Destination"), hw.dest("d2", "CongestedDestination")
+
+        def call(meth, *a, **kw):
+            fi = prog.function("sym_metanet.network", f"Network.{meth}")
+            return it.call(FuncV(fi, hw.net, defcls=NET), list(a), dict(kw), None, None)
+
+        call("add_path", (n1, l1, n2, l2, n3), origin=o1, destination=d1)
+        if incremental:
+            call("is_valid")
+            step(prog, hw)
+        call("add_path", (n4, l3, n2), origin=o3)       # a second link entering the interior node
+        call("add_path", (n2, l4, n5), destination=d2)  # and a second link leaving it
+        if incremental:
+            call("is_valid")
+        step(prog, hw)
+        outs = {}
+        for ident, o in hw.roles.items():
+            ns = o.attrs.get("next_states")
+            if isinstance(ns, dict):
+                outs[ident] = {k: v.t for k, v in ns.items()}
+        return outs, hw.env
+
+    bad = []
+    try:
+        ref, env = build(False)
+        got, _ = build(True)
+    except Raised as e:
+        return [f"building / stepping raises {e.exc}: {e.msg}"]
+    nz = M.make_normalizer(None, with_domain=False)
+    for ident, vs in ref.items():
+        for var, t in vs.items():
+            g = got.get(ident, {}).get(var)
+            if g is None:
+                bad.append(f"no next {var} of {ident} on the incrementally built network")
+                continue
+            try:
+                mm = M.compare(g, t, env, nz)
+            except E.ShapeError as ex:
+                mm = [("shape", str(ex), "")]
+            if mm:
+                bad.append(f"next {var} of {ident} at {mm[0][0]}: incremental = {mm[0][1][:200]} | built in one go = {mm[0][2][:200]}")
+    return bad
